@@ -16,6 +16,7 @@ import (
 	storetypes "cosmossdk.io/store/types"
 	"github.com/cosmos/cosmos-sdk/codec"
 
+	clienttypes "github.com/bianjieai/tibc-go/modules/tibc/core/02-client/types"
 	"github.com/bianjieai/tibc-go/modules/tibc/core/exported"
 )
 
@@ -44,6 +45,11 @@ func (h Header) ValidateBasic() error {
 	}
 	if len(h.Extra) < extraVanity+extraSeal {
 		return errorsmod.Wrap(ErrMissingSignature, "header Extra")
+	}
+
+	// Fixed-size fields longer than their type make ToBscHeader (and so Hash) panic once the header is stored
+	if len(h.Bloom) > bloomByteLength || len(h.Nonce) > nonceByteLength {
+		return errorsmod.Wrap(clienttypes.ErrInvalidHeader, "header Bloom/Nonce too long")
 	}
 
 	// Ensure that the mix digest is zero as we don't have fork protection currently
